@@ -6,7 +6,8 @@
 //!   rg.rangeinc[.rev] <ty> <a> <b> <hist>
 //!   rg.{range,rangeinc}.<via>[.rev|.irev] <ty> <a> <b>   whole iteration through `for_each!` (fe, range
 //!        passed by value) or `iter::eval!` (ev, range passed by reference); `.rev` = the macro's `rev()`
-//!        method, `.irev` = `into_iter!(..).rev()`.  (`collect_const!` const items: vlib/progs/c09_cc.py)
+//!        method, `.irev` = `into_iter!(..).rev()`; `zfe` = the range is the argument of `zip(..)` of a counter of
+//!        the same length.  (`collect_const!` const items: vlib/progs/c09_cc.py)
 //!   rg.rangefrom[.fe|.ev] <ty> <a> <k>        first k items of `a..` (`next` k times / `for_each!` with a
 //!        `break` after k items / `eval!` with `take(k)`, which pulls k+1 items)
 //!   rg.rftop.<via> <ty> <a> <k>            `a..` with a close to the type's MAX, driven up to and past MAX:
@@ -185,6 +186,12 @@ macro_rules! ty_mod {
                 both!(emit, inc, a, b, "ev", &fwd, |r, v| iter::eval!(&r, for_each(|x| { v.push(show(x)); guard(&v, limit) })));
                 both!(emit, inc, a, b, "ev.rev", &bwd, |r, v| iter::eval!(&r, rev(), for_each(|x| { v.push(show(x)); guard(&v, limit) })));
                 both!(emit, inc, a, b, "ev.irev", &bwd, |r, v| iter::eval!(iter::into_iter!(&r).rev(), for_each(|x| { v.push(show(x)); guard(&v, limit) })));
+                // the range as the ARGUMENT of `zip` (of a counter of the same length, so that std's and konst's
+                // pairing of a reversed zip coincide): it is walked by the same `next`/`next_back` as the source
+                // (added after seeded change C09-r4-1: the zipped iterator always stepped with `next`)
+                let n = count(inc, a, b);
+                both!(emit, inc, a, b, "zfe", &fwd, |r, v| iter::for_each! {(_, x) in 0..n, zip(r) => { v.push(show(x)); guard(&v, limit); }});
+                both!(emit, inc, a, b, "zfe.rev", &bwd, |r, v| iter::for_each! {(_, x) in 0..n, zip(r), rev() => { v.push(show(x)); guard(&v, limit); }});
             }
 
             /// `a..` : first k items; in scope while every pulled item stays below MAX
